@@ -809,6 +809,8 @@ def wl_relation(ctx, rng, i):
     ctx.nontrivial("relation", which, tuple(sorted(pool)))
 
 
+# pure by their documentation: a sample of the calls is repeated in a fresh interpreter, in reverse order (stixmon/echo.py)
+ECHO = ['stix2.equivalence.pattern:equivalent_patterns']
 WORKLOADS = [
     Workload("relation", wl_relation, quick=40, thorough=2000),
     Workload("specials", wl_specials, quick=150, thorough=6000),
@@ -846,7 +848,7 @@ MANIFEST = {
              "answer is audited by an independent evaluator of the patterning semantics that compares the match sets of the two "
              "patterns over several bounded universes (all subsets of a 7-observation pool built from the patterns' own constants), and "
              "pairs produced by the documented rewrites must be recognised.  Tempting-but-wrong rewrites supply the pairs on which an "
-             "unsound normalisation step would answer True.  Exploration; bounded universes cannot prove equivalence, only refute it."),
+             "unsound normalisation step would answer True.  Exploration; bounded universes cannot prove equivalence, only refute it. Echo monitor: a sample of the equivalence calls is repeated in a fresh interpreter in reverse order and must answer alike."),
     "note": "trusts stixmon/oracles/pattern_eval.py (validated against the repository's own equivalent/non-equivalent pairs in selftest) and the third-party validator",
-    "technique": "runtime monitoring: semantic evaluation oracle over bounded universes on every positive equivalence answer; law checks on recorded answers",
+    "technique": "runtime monitoring: semantic evaluation oracle over bounded universes on every positive equivalence answer; law checks on recorded answers; echo monitor (pure calls repeated in a fresh interpreter)",
 }
